@@ -252,7 +252,7 @@ func (in *Interp) decide(cond *Term) bool {
 		return false
 	case "sat":
 	default:
-		panic(pathEnd{"unknown", "branch feasibility: " + in.sol.lastErr})
+		panic(pathEnd{"unknown", "branch feasibility: " + in.sol.lastErr + " at " + in.where(in.cur, in.curPos)})
 	}
 	nc := in.ctx.Not(cond)
 	in.eng.stats.branchQueries.Add(1)
@@ -266,7 +266,7 @@ func (in *Interp) decide(cond *Term) bool {
 		return true
 	case "sat":
 	default:
-		panic(pathEnd{"unknown", "branch feasibility: " + in.sol.lastErr})
+		panic(pathEnd{"unknown", "branch feasibility: " + in.sol.lastErr + " at " + in.where(in.cur, in.curPos)})
 	}
 	// both feasible: fork
 	alt := append(append([]int(nil), ps.trace...), 1)
